@@ -862,6 +862,165 @@ fn check_path(m: &RefDb, rs: &CSearch, actual: &Result<Vec<i64>, String>) -> Res
     }
 }
 
+/// true when every minimum-cost path has strictly more hops than the shortest usable path (the
+/// shape in which "fewest hops" and "minimum cost" disagree)
+fn cheapest_is_longer(m: &RefDb, conds: &[CCond], from: i64, to: i64) -> bool {
+    // best[node][h] = minimum cost of reaching node with exactly h node-hops (bounded)
+    let max_h = 12usize;
+    let mut best: Vec<BTreeMap<i64, u64>> = vec![BTreeMap::new(); max_h + 1];
+    best[0].insert(from, 0);
+    for h in 0..max_h {
+        let cur: Vec<(i64, u64)> = best[h].iter().map(|(k, v)| (*k, *v)).collect();
+        for (node, c) in cur {
+            if node == to {
+                continue;
+            }
+            if let Some(n) = m.nodes.get(&node) {
+                for e in &n.out {
+                    let (Some(ec), _) = elem_cost(m, conds, *e) else { continue };
+                    let target = m.edges[e].1;
+                    let (Some(nc), _) = elem_cost(m, conds, target) else { continue };
+                    let entry = best[h + 1].entry(target).or_insert(u64::MAX);
+                    *entry = (*entry).min(c + ec + nc);
+                }
+            }
+        }
+    }
+    let per_h: Vec<Option<u64>> = (0..=max_h).map(|h| best[h].get(&to).cloned()).collect();
+    let first = per_h.iter().position(|c| c.is_some());
+    match first {
+        Some(h0) => {
+            let c0 = per_h[h0].unwrap();
+            per_h.iter().skip(h0 + 1).flatten().any(|c| *c < c0)
+        }
+        None => false,
+    }
+}
+
+/// dense marked graphs for path searches: 4-9 nodes, n..3n edges, about half of the nodes and
+/// edges carry the marker key k0 (so that conditions on k0 make some elements cost 2)
+fn path_graph() -> BoxedStrategy<Vec<Step>> {
+    (4usize..=9)
+        .prop_flat_map(|n| {
+            (
+                prop::collection::vec(any::<bool>(), n..=n),
+                prop::collection::vec((0..n, 0..n, any::<bool>()), n..=3 * n),
+            )
+        })
+        .prop_map(|(nodes, edges)| {
+            let mark = |b: bool| if b { vec![(Val::Str("k0".into()), Val::I64(5))] } else { vec![] };
+            let mut history = vec![Step::Q(CQuery::InsertNodes {
+                count: 0,
+                values: QVals::Multi(nodes.iter().map(|b| mark(*b)).collect()),
+                aliases: vec![],
+                ids: QIds::Ids(vec![]),
+            })];
+            for (f, t, b) in edges {
+                history.push(Step::Q(CQuery::InsertEdges {
+                    from: QIds::Ids(vec![QId::Id(f as i64 + 1)]),
+                    to: QIds::Ids(vec![QId::Id(t as i64 + 1)]),
+                    ids: QIds::Ids(vec![]),
+                    values: QVals::Single(mark(b)),
+                    each: false,
+                }));
+            }
+            history
+        })
+        .boxed()
+}
+
+/// two routes from node 1 to node 2: a short one (a hops) whose elements mostly lack the marker
+/// and a longer one (b hops, a < b < 2a+1) whose elements mostly carry it, plus noise edges; with
+/// a condition on the marker the longer route is usually the cheaper one
+fn two_route_graph() -> BoxedStrategy<Vec<Step>> {
+    (1usize..=3)
+        .prop_flat_map(|a| (Just(a), a + 1..=2 * a + 1))
+        .prop_flat_map(|(a, b)| {
+            let n = 2 + (a - 1) + (b - 1);
+            (
+                Just((a, b)),
+                prop::collection::vec(prop::bool::weighted(0.12), 2 * (a + b) + 2),
+                prop::collection::vec((0..n, 0..n, any::<bool>()), 0..4),
+                any::<bool>(),
+            )
+        })
+        .prop_map(|((a, b), flips, noise, short_first)| {
+            let mark = |m: bool| if m { vec![(Val::Str("k0".into()), Val::I64(5))] } else { vec![] };
+            let n = 2 + (a - 1) + (b - 1);
+            // node ids: 1 = origin, 2 = destination, 3.. = inner nodes of the short route, then of the long one
+            let short_nodes: Vec<usize> = std::iter::once(1).chain(3..3 + (a - 1)).chain(std::iter::once(2)).collect();
+            let long_nodes: Vec<usize> = std::iter::once(1).chain(3 + (a - 1)..3 + (a - 1) + (b - 1)).chain(std::iter::once(2)).collect();
+            let mut f = flips.into_iter();
+            let mut node_marks = vec![false; n + 1];
+            for i in &short_nodes[1..short_nodes.len() - 1] {
+                node_marks[*i] = f.next().unwrap_or(false);
+            }
+            for i in &long_nodes[1..long_nodes.len() - 1] {
+                node_marks[*i] = !f.next().unwrap_or(false);
+            }
+            node_marks[2] = f.next().unwrap_or(false);
+            let mut history = vec![Step::Q(CQuery::InsertNodes {
+                count: 0,
+                values: QVals::Multi((1..=n).map(|i| mark(node_marks[i])).collect()),
+                aliases: vec![],
+                ids: QIds::Ids(vec![]),
+            })];
+            let mut routes = vec![(short_nodes, false), (long_nodes, true)];
+            if !short_first {
+                routes.reverse();
+            }
+            for (route, marked) in routes {
+                for w in route.windows(2) {
+                    let m = marked != f.next().unwrap_or(false);
+                    history.push(Step::Q(CQuery::InsertEdges {
+                        from: QIds::Ids(vec![QId::Id(w[0] as i64)]),
+                        to: QIds::Ids(vec![QId::Id(w[1] as i64)]),
+                        ids: QIds::Ids(vec![]),
+                        values: QVals::Single(mark(m)),
+                        each: false,
+                    }));
+                }
+            }
+            for (x, y, m) in noise {
+                history.push(Step::Q(CQuery::InsertEdges {
+                    from: QIds::Ids(vec![QId::Id(x as i64 + 1)]),
+                    to: QIds::Ids(vec![QId::Id(y as i64 + 1)]),
+                    ids: QIds::Ids(vec![]),
+                    values: QVals::Single(mark(m)),
+                    each: false,
+                }));
+            }
+            history
+        })
+        .boxed()
+}
+
+fn marked_path_search() -> BoxedStrategy<CSearch> {
+    let k0 = || CData::Keys(vec![Val::Str("k0".into())]);
+    let cp = CondProfile {
+        distance: false,
+        depth: 1,
+        cross_type_ordering: true,
+    };
+    let conds = prop_oneof![
+        1 => Just(vec![]),
+        3 => Just(vec![CCond { logic: Logic::And, modifier: Modifier::None, data: k0() }]),
+        3 => Just(vec![CCond { logic: Logic::And, modifier: Modifier::Not, data: k0() }]),
+        2 => Just(vec![cond(CData::Node), CCond { logic: Logic::Or, modifier: Modifier::None, data: k0() }]),
+        2 => Just(vec![cond(CData::Edge), CCond { logic: Logic::Or, modifier: Modifier::Not, data: k0() }]),
+        2 => Just(vec![cond(CData::Edge), CCond { logic: Logic::And, modifier: Modifier::None, data: k0() }]),
+        2 => vgen::cond_list(&cp, 1),
+    ];
+    (any::<u16>(), any::<u16>(), conds)
+        .prop_map(|(a, b, conditions)| {
+            let mut s = CSearch::from(QId::SelNode(a));
+            s.destination = QId::SelNode(b);
+            s.conditions = conditions;
+            s
+        })
+        .boxed()
+}
+
 fn path_search() -> BoxedStrategy<CSearch> {
     let cp = CondProfile {
         distance: false,
@@ -899,6 +1058,11 @@ fn c17_case(c: &SearchCase) -> CaseResult {
         ci.evals += 1;
         if check_path(&m, &rs, &actual)? {
             ci.sub_nontrivial.push(hash_json(&(&c.history, s)));
+            if let (QId::Id(f), QId::Id(t)) = (&rs.origin, &rs.destination) {
+                if cheapest_is_longer(&m, &rs.conditions, *f, *t) {
+                    ci.count("every cheapest path has more hops than the shortest usable path", 1);
+                }
+            }
         }
         if let Ok(v) = &actual {
             ci.count(if v.is_empty() { "empty result" } else { "path found" }, 1);
@@ -979,7 +1143,7 @@ fn c17_small_scope(ctx: &mut Ctx, n: usize, max_edges: usize) {
 }
 
 pub fn c17(ctx: &mut Ctx) {
-    ctx.rule = "(i) exhaustive multigraphs with N nodes and <=M edges x all ordered (origin,destination) pairs x 3 condition sets; (ii) random graphs from generated histories x random endpoints (nodes, edges, missing ids, aliases, equal) x random condition sets without distance. Oracle (validity, not one expected answer): reference Dijkstra over element costs (1 selected, 2 not selected, unusable if the conditions stop; origin free) gives the minimum cost c*; the result must be empty iff no usable path exists / an endpoint is not an existing node / origin == destination, otherwise every returned element passes the conditions and a second Dijkstra constrained to paths whose selected elements are exactly the returned list must reach the destination with cost c*. Non-trivial: a usable path exists, >=2 distinct simple paths connect the pair and some element fails the conditions. Distinct = hash of (graph, search).".into();
+    ctx.rule = "(i) exhaustive multigraphs with N nodes and <=M edges x all ordered (origin,destination) pairs x 3 condition sets; (ii) random graphs from generated histories x random endpoints (nodes, edges, missing ids, aliases, equal) x random condition sets without distance; (iii) dense marked graphs (4-9 nodes, n..3n edges, about half of the nodes and edges carry a marker key) x random node pairs x condition sets on the marker (so that alternative routes differ in hops and in cost; the label 'every cheapest path has more hops than the shortest usable path' counts the searches where fewest-hops and minimum-cost disagree). Oracle (validity, not one expected answer): reference Dijkstra over element costs (1 selected, 2 not selected, unusable if the conditions stop; origin free) gives the minimum cost c*; the result must be empty iff no usable path exists / an endpoint is not an existing node / origin == destination, otherwise every returned element passes the conditions and a second Dijkstra constrained to paths whose selected elements are exactly the returned list must reach the destination with cost c*. Non-trivial: a usable path exists, >=2 distinct simple paths connect the pair and some element fails the conditions. Distinct = hash of (graph, search).".into();
     replay_saved::<SearchCase, _>(ctx, "c17-search", c17_case);
     let (n, m) = ctx.tier.pick((3, 3), (3, 4));
     c17_small_scope(ctx, n, m);
@@ -996,6 +1160,28 @@ pub fn c17(ctx: &mut Ctx) {
         move || {
             (vgen::history(&graph_profile(), lo, hi), prop::collection::vec(path_search(), 8..=8))
                 .prop_map(|(history, searches)| SearchCase { history, searches })
+        },
+        c17_case,
+    );
+    // dense marked graphs: many alternative routes of different lengths and costs
+    let cases = ctx.tier.pick(12_000, 300_000);
+    run_campaign(
+        ctx,
+        CampaignCfg {
+            name: "c17-search",
+            cases,
+            max_shrink_iters: 3000,
+            max_restarts: 3,
+        },
+        move || {
+            (prop_oneof![path_graph(), two_route_graph()], prop::collection::vec(marked_path_search(), 6..=6)).prop_map(|(history, mut searches)| {
+                // the first two searches go from node 1 to node 2 (the endpoints of the two-route construction)
+                for s in searches.iter_mut().take(2) {
+                    s.origin = QId::Id(1);
+                    s.destination = QId::Id(2);
+                }
+                SearchCase { history, searches }
+            })
         },
         c17_case,
     );
